@@ -1,7 +1,7 @@
 #!/bin/sh
 # Runs the repository's own suite (hooks off) and compares with the 664-test baseline.
 cd /repo && CARGO_NET_OFFLINE=true cargo nextest run --workspace --no-fail-fast --test-threads 8 --offline > /tmp/nextest_last.log 2>&1
-grep "Summary" /tmp/nextest_last.log
+grep "Summary" /tmp/nextest_last.log || { echo "SUITE DID NOT RUN (build failure?) - see /tmp/nextest_last.log"; exit 2; }
 grep "^        FAIL" /tmp/nextest_last.log | sed 's/.*) //' | sort -u > /tmp/nextest_fail.txt
 python3 - <<'PY'
 import json
